@@ -41,6 +41,7 @@ import (
 	"reduction.dev/reduction/storage/objstore"
 	"reduction.dev/reduction/workers"
 	"reduction.dev/reduction/workers/operator"
+	"reduction.dev/reduction/workers/sourcerunner"
 	"verif/harness/lib"
 )
 
@@ -245,7 +246,17 @@ func (o *c15OpHandle) ID() string {
 func (o *c15OpHandle) Deploy(ctx context.Context, req *workerpb.DeployOperatorRequest) error {
 	return o.w.gate(&c15DeployCall{kind: 'o', id: o.id, opReq: req, resp: make(chan error, 1)})
 }
-func (o *c15OpHandle) UpdateRetainedCheckpoints(ctx context.Context, ids []uint64) error { return nil }
+func (o *c15OpHandle) UpdateRetainedCheckpoints(ctx context.Context, ids []uint64) error {
+	// the job's retained-ids goroutine (it reads j.assembly off the task queue) reached this operator
+	o.w.mu.Lock()
+	o.w.retained = append(o.w.retained, c15Retain{op: o.id, ids: append([]uint64(nil), ids...)})
+	o.w.mu.Unlock()
+	select {
+	case o.w.retainCh <- struct{}{}:
+	default:
+	}
+	return nil
+}
 
 // what an operator process sees of the job
 type c15JobForOp struct {
@@ -351,12 +362,17 @@ type c15World struct {
 	// real-worker cluster (c15_cluster.go): the deployments and checkpoint starts go to real worker processes
 	cluster *c15Cluster
 	// the ticker callback run in pieces (`ticka`/`tickb`/`tickc`): it is NOT a task of the job's queue
-	idGate     atomic.Pointer[c15Gate]
-	startGate  atomic.Pointer[c15Gate]
-	tickCb     *c15TickCb
-	autoDeploy atomic.Bool
-	loc        *c15Loc
-	heldIDs    []uint64 // snapshots completed while the storage is held, oldest first
+	idGate        atomic.Pointer[c15Gate]
+	startGate     atomic.Pointer[c15Gate]
+	tickCb        *c15TickCb
+	autoDeploy    atomic.Bool
+	loc           *c15Loc
+	heldIDs       []uint64 // snapshots completed while the storage is held, oldest first
+	retained      []c15Retain
+	retainCh      chan struct{}
+	retainText    string // retained-ids notifications observed during the current op
+	pendingRetain []uint64
+	pubSeen       map[uint64]bool
 }
 
 // c15Loc serialises access to the in-memory storage location (the store writes and removes snapshot files from
@@ -368,14 +384,24 @@ type c15Loc struct {
 	// after its file is written)
 	hold   atomic.Bool
 	pmu    sync.Mutex
-	parked []chan struct{}
+	parked map[string]chan struct{} // by file path
+}
+
+// the store's file name of job snapshot id: MaxUint64 - id, big endian, base64url
+func c15SnapshotName(id uint64) string {
+	seg := make([]byte, 8)
+	binary.BigEndian.PutUint64(seg, ^id)
+	return "job-" + base64.RawURLEncoding.EncodeToString(seg) + ".snapshot"
 }
 
 func (l *c15Loc) Write(path string, data io.Reader) (string, error) {
 	if l.hold.Load() && strings.HasSuffix(path, ".snapshot") {
 		ch := make(chan struct{})
 		l.pmu.Lock()
-		l.parked = append(l.parked, ch)
+		if l.parked == nil {
+			l.parked = map[string]chan struct{}{}
+		}
+		l.parked[path[strings.LastIndex(path, "/")+1:]] = ch
 		l.pmu.Unlock()
 		select {
 		case <-ch:
@@ -451,7 +477,7 @@ func newC15World(w, d, c0, bmax int) (*c15World, error) {
 		}
 	}
 	world := &c15World{w: w, d: d, bmax: bmax, timers: map[int]*c15Timer{}, handled: map[int][]int{}, queued: map[int][]int{},
-		handledCh: make(chan struct{}, 1), ops: map[int]*operator.Operator{}, deployed: map[int]bool{},
+		handledCh: make(chan struct{}, 1), retainCh: make(chan struct{}, 64), ops: map[int]*operator.Operator{}, deployed: map[int]bool{},
 		deployCh: make(chan *c15DeployCall, 64), startCh: make(chan string, 4),
 		clk: &c15Clock{now: time.Unix(1000, 0), everyCh: make(chan struct{}, 4)}}
 	quiet := slog.New(slog.NewTextHandler(c15Discard{}, nil))
@@ -771,6 +797,7 @@ func c15ErrClass(err error) string {
 // storeCall runs an acknowledgement against the job and reports whether it published a job checkpoint
 func (w *c15World) storeCall(f func() error) string {
 	st := w.job.VerifStoreC15()
+	prev, hadPrev := st.VerifCurrentIDC15()
 	pid, _, _, had := st.VerifPendingC15()
 	err := func() (err error) {
 		defer func() {
@@ -794,11 +821,67 @@ func (w *c15World) storeCall(f func() error) string {
 	deadline := time.Now().Add(c15W())
 	for time.Now().Before(deadline) {
 		if cur, ok := st.VerifCurrentIDC15(); ok && cur == pid {
+			// with real workers two operators acknowledge concurrently and both can see the snapshot complete
+			w.mu.Lock()
+			if w.pubSeen == nil {
+				w.pubSeen = map[uint64]bool{}
+			}
+			dup := w.pubSeen[pid]
+			w.pubSeen[pid] = true
+			if !dup && hadPrev && prev < pid { // observed by the op loop, not inside this acknowledgement
+				w.pendingRetain = append(w.pendingRetain, pid)
+			}
+			w.mu.Unlock()
+			if dup {
+				return res
+			}
 			return fmt.Sprintf("%s pub=%d", res, pid)
 		}
 		time.Sleep(100 * time.Microsecond)
 	}
 	return res + " timeout-publish"
+}
+
+type c15Retain struct {
+	op  int
+	ids []uint64
+}
+
+// awaitRetain: the publication of `id` made an older snapshot obsolete; the job tells every operator of its assembly
+// to retain only `id`
+func (w *c15World) awaitRetain(id uint64) {
+	ao, _ := w.job.VerifAssemblyC15()
+	deadline := time.After(c15W())
+	for {
+		w.mu.Lock()
+		n := len(w.retained)
+		w.mu.Unlock()
+		if n >= len(ao) {
+			break
+		}
+		select {
+		case <-w.retainCh:
+		case <-deadline:
+			w.retainText += " timeout-retain"
+			return
+		}
+	}
+	w.mu.Lock()
+	got := w.retained
+	w.retained = nil
+	w.mu.Unlock()
+	var ops []int
+	okIDs := true
+	for _, r := range got {
+		ops = append(ops, r.op)
+		if len(r.ids) != 1 || r.ids[0] != id {
+			okIDs = false
+		}
+	}
+	w.retainText += fmt.Sprintf(" retain=%d@%s", id, c15Join(ops))
+	if !okIDs {
+		w.retainText += "!ids"
+	}
 }
 
 type c15Gate struct {
@@ -811,6 +894,9 @@ type c15TickCb struct {
 	start *c15Gate
 	done  chan struct{}
 	stage int
+	sp    bool // a savepoint request, not the ticker callback
+	spID  uint64
+	spErr error
 }
 
 // releasePublications lets the held snapshot files be written, oldest first, and waits for each publication
@@ -824,14 +910,20 @@ func (w *c15World) releasePublications() string {
 	defer w.loc.hold.Store(false) // only after every held write has been seen parked
 	st := w.job.VerifStoreC15()
 	var names []string
-	for i, id := range ids {
-		// the write of snapshot i is parked by now or about to be (it is issued by a goroutine of the store)
+	for _, id := range ids {
+		prev, hadPrev := st.VerifCurrentIDC15()
+		// the write of this snapshot is parked by now or about to be (it is issued by a goroutine of the store)
+		name := c15SnapshotName(id)
 		deadline := time.Now().Add(c15W())
 		for {
 			w.loc.pmu.Lock()
-			n := len(w.loc.parked)
+			ch := w.loc.parked[name]
+			if ch != nil {
+				delete(w.loc.parked, name)
+				close(ch)
+			}
 			w.loc.pmu.Unlock()
-			if n > i {
+			if ch != nil {
 				break
 			}
 			if time.Now().After(deadline) {
@@ -839,9 +931,6 @@ func (w *c15World) releasePublications() string {
 			}
 			time.Sleep(50 * time.Microsecond)
 		}
-		w.loc.pmu.Lock()
-		close(w.loc.parked[i])
-		w.loc.pmu.Unlock()
 		deadline = time.Now().Add(c15W())
 		for {
 			if cur, ok := st.VerifCurrentIDC15(); ok && cur >= id {
@@ -852,11 +941,11 @@ func (w *c15World) releasePublications() string {
 			}
 			time.Sleep(50 * time.Microsecond)
 		}
+		if hadPrev && prev < id {
+			w.awaitRetain(id)
+		}
 		names = append(names, strconv.FormatUint(id, 10))
 	}
-	w.loc.pmu.Lock()
-	w.loc.parked = nil
-	w.loc.pmu.Unlock()
 	cur := "none"
 	if c, ok := st.VerifCurrentIDC15(); ok {
 		cur = strconv.FormatUint(c, 10)
@@ -864,24 +953,74 @@ func (w *c15World) releasePublications() string {
 	return fmt.Sprintf("published %s cur=%s", strings.Join(names, ","), cur)
 }
 
-func (w *c15World) tickA() string {
-	alive := w.clk.alive()
-	if len(alive) == 0 {
-		return "stopped"
+func c15SpClass(id uint64, err error, started bool) string {
+	switch {
+	case err != nil && strings.Contains(err.Error(), "not running"):
+		return "notrunning"
+	case err != nil && strings.Contains(err.Error(), "already in-progress"):
+		return "busy"
+	case err != nil:
+		return c15ErrClass(err)
+	case started:
+		return "created"
 	}
-	if w.tickCb != nil {
-		return "notick"
-	}
+	return fmt.Sprintf("joined %d", id)
+}
+
+// savepoint: HandleCreateSavepoint as one step
+func (w *c15World) savepoint() string {
 	if !w.sync() {
 		return "timeout-sync"
 	}
-	t := alive[len(alive)-1]
-	cb := &c15TickCb{id: &c15Gate{arrived: make(chan struct{}, 1), release: make(chan struct{})}, done: make(chan struct{})}
+	w.mu.Lock()
+	w.ckStarts = nil
+	w.mu.Unlock()
+	id, err := w.job.HandleCreateSavepoint(context.Background())
+	w.mu.Lock()
+	cs := w.ckStarts
+	w.mu.Unlock()
+	if err == nil && len(cs) > 0 {
+		var srs []int
+		for _, c := range cs {
+			srs = append(srs, int(c[0]))
+		}
+		return fmt.Sprintf("ckpt %d s=%s", id, c15Join(srs))
+	}
+	return c15SpClass(id, err, false)
+}
+
+// tickA starts the ticker callback (or, sp, a savepoint request) and holds it inside its first read of the assembly
+func (w *c15World) tickA(sp bool) string {
+	if !w.sync() {
+		return "timeout-sync"
+	}
+	var run func()
+	cb := &c15TickCb{id: &c15Gate{arrived: make(chan struct{}, 1), release: make(chan struct{})}, done: make(chan struct{}), sp: sp}
+	if sp {
+		if w.job.VerifStatusC15() != "Running" {
+			_, err := w.job.HandleCreateSavepoint(context.Background())
+			return c15SpClass(0, err, false)
+		}
+		if w.tickCb != nil {
+			return "notick"
+		}
+		run = func() { cb.spID, cb.spErr = w.job.HandleCreateSavepoint(context.Background()) }
+	} else {
+		alive := w.clk.alive()
+		if len(alive) == 0 {
+			return "stopped"
+		}
+		if w.tickCb != nil {
+			return "notick"
+		}
+		t := alive[len(alive)-1]
+		run = func() { t.fn(&clocks.EveryContext{}) }
+	}
 	w.idGate.Store(cb.id)
 	go func() {
 		defer close(cb.done)
 		defer func() { recover() }()
-		t.fn(&clocks.EveryContext{})
+		run()
 	}()
 	select {
 	case <-cb.id.arrived:
@@ -922,6 +1061,9 @@ func (w *c15World) tickB() string {
 			k := len(w.ckStarts)
 			w.mu.Unlock()
 			if k == 0 {
+				if cb.sp {
+					return c15SpClass(cb.spID, cb.spErr, false)
+				}
 				return "retry"
 			}
 			return "timeout-tick-returned"
@@ -1262,6 +1404,9 @@ func c15Header(w, d, c0 int) string { return fmt.Sprintf("M C15 %d %d %d %d", w,
 
 func c15Impl(c lib.Case) []string {
 	f := strings.Fields(c.Header)
+	if len(f) == 7 && f[6] == "S" {
+		return c15SrImpl(c)
+	}
 	atoi := func(s string) int { n, _ := strconv.Atoi(s); return n }
 	if len(f) != 6 && len(f) != 7 {
 		return []string{"bad-header"}
@@ -1314,8 +1459,12 @@ func c15Impl(c lib.Case) []string {
 			o = "ok"
 		case len(a) == 1 && a[0] == "relpub":
 			o = w.releasePublications()
+		case len(a) == 1 && a[0] == "savepoint":
+			o = w.savepoint()
+		case len(a) == 1 && a[0] == "spa":
+			o = w.tickA(true)
 		case len(a) == 1 && a[0] == "ticka":
-			o = w.tickA()
+			o = w.tickA(false)
 		case len(a) == 1 && a[0] == "tickb":
 			o = w.tickB()
 		case len(a) == 1 && a[0] == "tickc":
@@ -1376,6 +1525,15 @@ func c15Impl(c lib.Case) []string {
 		default:
 			o = "bad-op"
 		}
+		w.mu.Lock()
+		pr := w.pendingRetain
+		w.pendingRetain = nil
+		w.mu.Unlock()
+		for _, id := range pr {
+			w.awaitRetain(id)
+		}
+		o += w.retainText
+		w.retainText = ""
 		out = append(out, o)
 		c15Count(a, o)
 		if strings.Contains(o, "timeout-") { // the run has left the model; what follows would only wait again
@@ -1698,6 +1856,9 @@ func (g *c15Gen) noise() {
 }
 
 func c15Gen1(r *lib.Rng, tier string, idx int) lib.Case {
+	if idx%10 == 7 { // one real source runner process against Model/RunnerProc.lean
+		return c15GenRunner(r)
+	}
 	if idx%5 == 4 { // every fifth case runs real worker processes
 		return c15GenCluster(r, tier)
 	}
@@ -1749,8 +1910,17 @@ func c15Gen1(r *lib.Rng, tier string, idx int) lib.Case {
 				g.noise()
 			}
 		case "Running":
-			if r.Chance(1, 12) && !g.pending { // the ticker callback in pieces, with tasks in between
-				g.add("ticka")
+			if r.Chance(1, 25) {
+				g.add("savepoint")
+				if !g.pending {
+					g.ck++
+					g.pending = true
+					g.acked = map[string]bool{}
+				}
+				continue
+			}
+			if r.Chance(1, 12) && !g.pending { // the ticker callback (or a savepoint request) in pieces, with tasks in between
+				g.add(lib.Pick(r, []string{"ticka", "ticka", "spa"}))
 				if r.Chance(1, 2) {
 					g.fault()
 					if r.Chance(1, 2) && g.status != "Running" {
@@ -1863,6 +2033,14 @@ func c15Fixed() []lib.Case {
 		{Header: c15Header(1, 5, 0), Tags: []string{"D57"}, Ops: []string{
 			"reg o 0", "reg s 1", "deployok", "ticka", "tickb", "tickc", "ack s 1 1", "bar 0 1 1", "ticka", "dereg s 1", "tickb", "tickc",
 			"st", "ticka", "reg s 2", "deployok", "ticka", "tickb", "tickb", "tickc", "tickc", "st"}},
+		// savepoint requests (they run off the task queue like the ticker callback): as one step, joined to a pending
+		// checkpoint, refused when not running or already requested; in pieces with a member replaced in between (D57)
+		{Header: c15Header(1, 5, 0), Tags: []string{"savepoint"}, Ops: []string{
+			"savepoint", "reg o 0", "reg s 1", "savepoint", "deployok", "savepoint", "savepoint", "tick", "ack s 1 1", "bar 0 1 1", "tick", "savepoint",
+			"savepoint", "ack s 1 2", "bar 0 1 2", "dereg s 1", "savepoint", "spa", "st"}},
+		{Header: c15Header(2, 5, 0), Tags: []string{"D57"}, Ops: []string{
+			"reg o 0", "reg o 1", "reg s 2", "reg s 3", "deployok", "spa", "dereg o 1", "reg o 4", "tickb", "tickc", "deployok", "st", "tick",
+			"savepoint", "savepoint"}},
 		// ticker callbacks truly concurrent with membership tasks (for the -race build; always answered ok)
 		{Header: c15Header(1, 5, 0), Tags: []string{"raceprobe"}, Ops: []string{"reg o 0", "reg s 1", "deployok", "raceprobe 40"}},
 		// one checkpoint per deployment: checkpoint 1 is complete but its file is still being written when runner 1 is
@@ -1909,7 +2087,7 @@ func propC15() *lib.Prop {
 		},
 		Gen:   c15Gen1,
 		Impl:  c15Impl,
-		Fixed: func(tier string) []lib.Case { return append(c15Fixed(), c15ClusterFixed()...) },
+		Fixed: func(tier string) []lib.Case { return append(append(c15Fixed(), c15ClusterFixed()...), c15SrFixed()...) },
 		MObs:  func(op string) bool { return op == "st" },
 		Extra: func() map[string]any {
 			c15StatsMu.Lock()
@@ -2655,5 +2833,268 @@ func c15ClusterFixed() []lib.Case {
 		{Header: c15ClusterHeader(1, 5, 0), Tags: []string{"real-workers"}, Ops: []string{
 			"wstart 0", "wstart 1", "wdeploy", "tick", "rack 0", "wstop 0", "wkill 1", "wdeploy", "wdeploy", "wstart 2", "adv 6", "whb 2",
 			"wdeploy", "tick", "rack 2", "st"}},
+	}
+}
+
+// ================================================================ one real source runner process (finding D48)
+//
+// Header `M C15 1 5 0 3 S`, ops r.deploy / r.hold / r.start <id> / r.pend <id>: lockstep of the real
+// sourcerunner.SourceRunner (HandleDeploy, HandleStartCheckpoint, its event loops and their acknowledgements) against
+// Model/RunnerProc.lean. The job side accepts an acknowledgement only for the pending id the case sets; the reader of
+// the current deployment can be made to block inside a read (`r.hold`), which keeps that event loop busy.
+
+type c15SrJob struct {
+	proto.NoopJob
+	mu      sync.Mutex
+	pending uint64
+	has     bool
+	acks    chan [2]uint64 // id, accepted
+}
+
+func (j *c15SrJob) RegisterSourceRunner(context.Context, *jobpb.NodeIdentity) error { return nil }
+func (j *c15SrJob) RegisterOperator(context.Context, *jobpb.NodeIdentity) error     { return nil }
+func (j *c15SrJob) NotifySplitsFinished(context.Context, string, []string) error    { return nil }
+func (j *c15SrJob) OnSourceRunnerCheckpointComplete(ctx context.Context, req *jobpb.SourceRunnerCheckpointCompleteRequest) error {
+	j.mu.Lock()
+	ok := j.has && j.pending == req.CheckpointId
+	j.mu.Unlock()
+	if ok {
+		j.acks <- [2]uint64{req.CheckpointId, 1}
+		return nil
+	}
+	j.acks <- [2]uint64{req.CheckpointId, 0}
+	return fmt.Errorf("no pending checkpoint with this id")
+}
+
+type c15SrReader struct {
+	connectors.UnimplementedSourceReader
+	hold    atomic.Bool
+	reading chan struct{}
+	release chan struct{}
+}
+
+func (r *c15SrReader) AssignSplits([]*workerpb.SourceSplit) error { return nil }
+func (r *c15SrReader) Checkpoint() [][]byte                       { return nil }
+func (r *c15SrReader) ReadEvents() ([][]byte, error) {
+	if r.hold.Load() {
+		select {
+		case r.reading <- struct{}{}:
+		default:
+		}
+		<-r.release
+	}
+	time.Sleep(200 * time.Microsecond)
+	return nil, nil
+}
+
+type c15SrOp struct{ proto.UnimplementedOperator }
+
+func (*c15SrOp) ID() string                                                { return "n0" }
+func (*c15SrOp) Host() string                                              { return "h" }
+func (*c15SrOp) HandleEventBatch(context.Context, []*workerpb.Event) error { return nil }
+
+type c15SrWorld struct {
+	sr       *sourcerunner.SourceRunner
+	job      *c15SrJob
+	readers  []*c15SrReader
+	cancel   context.CancelFunc
+	loops    int // event loops started (one per HandleDeploy)
+	held     int // loops seen parked inside a read
+	refused  int // acknowledgements refused: each ends the loop that sent it
+	occupied bool
+}
+
+func newC15SrWorld() *c15SrWorld {
+	w := &c15SrWorld{job: &c15SrJob{acks: make(chan [2]uint64, 16)}}
+	quiet := slog.New(slog.NewTextHandler(c15Discard{}, nil))
+	slog.SetDefault(quiet)
+	w.sr = sourcerunner.New(sourcerunner.NewParams{Host: "h", UserHandler: c15Handler{w: nil}, Job: w.job, Clock: clocks.NewFrozenClock(),
+		OperatorFactory: func(string, *jobpb.NodeIdentity) proto.Operator { return &c15SrOp{} },
+		SourceReaderFactory: func(*jobconfigpb.Source) connectors.SourceReader {
+			r := &c15SrReader{reading: make(chan struct{}, 1), release: make(chan struct{})}
+			w.readers = append(w.readers, r)
+			return r
+		},
+		EventBatching: batching.EventBatcherParams{MaxSize: 1}})
+	w.sr.Logger = quiet
+	ctx, cancel := context.WithCancel(context.Background())
+	w.cancel = cancel
+	go func() {
+		defer func() { recover() }()
+		w.sr.Start(ctx)
+	}()
+	return w
+}
+
+func (w *c15SrWorld) free() int { return w.loops - w.held - w.refused }
+
+// the acknowledgement a free loop sends for the queued request
+func (w *c15SrWorld) awaitTake() string {
+	select {
+	case a := <-w.job.acks:
+		w.occupied = false
+		if a[1] == 1 {
+			return fmt.Sprintf("acked %d", a[0])
+		}
+		w.refused++
+		return fmt.Sprintf("refused %d", a[0])
+	case <-time.After(c15W()):
+		return "timeout-take"
+	}
+}
+
+func (w *c15SrWorld) op(a []string) string {
+	atoi := func(s string) int { n, _ := strconv.Atoi(s); return n }
+	switch {
+	case len(a) == 1 && a[0] == "r.deploy":
+		err := w.sr.HandleDeploy(context.Background(), &workerpb.DeploySourceRunnerRequest{
+			Operators: []*jobpb.NodeIdentity{{Id: "n0", Host: "h"}}, KeyGroupCount: 8, Sources: []*jobconfigpb.Source{{}}})
+		if err != nil {
+			return c15ErrClass(err)
+		}
+		// the assignment is handed over through a one-slot channel that only an event loop empties: if the new loop
+		// ends on a stale checkpoint request before it gets there, the slot stays full, so do not wait here
+		go func() {
+			defer func() { recover() }()
+			w.sr.HandleAssignSplits([]*workerpb.SourceSplit{{SplitId: "0", SourceId: "s"}})
+		}()
+		w.loops++
+		if w.occupied {
+			return "deployed " + w.awaitTake()
+		}
+		return "deployed"
+	case len(a) == 1 && a[0] == "r.hold":
+		if w.free() <= 0 || len(w.readers) == 0 {
+			return "nohold"
+		}
+		r := w.readers[len(w.readers)-1]
+		if r.hold.Load() {
+			return "nohold" // the reader serves one read at a time: a second loop cannot get stuck in it
+		}
+		r.hold.Store(true)
+		select {
+		case <-r.reading:
+			w.held++
+			return "held"
+		case <-time.After(c15W()):
+			return "timeout-hold"
+		}
+	case len(a) == 2 && a[0] == "r.start":
+		if w.occupied {
+			return "full" // HandleStartCheckpoint would block on the channel
+		}
+		done := make(chan struct{})
+		go func() {
+			defer close(done)
+			defer func() { recover() }()
+			w.sr.HandleStartCheckpoint(context.Background(), uint64(atoi(a[1])))
+		}()
+		select {
+		case <-done:
+		case <-time.After(c15W()):
+			return "timeout-start"
+		}
+		w.occupied = true
+		if w.free() > 0 {
+			return w.awaitTake()
+		}
+		return "queued"
+	case len(a) == 2 && a[0] == "r.pend":
+		w.job.mu.Lock()
+		w.job.pending, w.job.has = uint64(atoi(a[1])), true
+		w.job.mu.Unlock()
+		return "ok"
+	}
+	return "bad-op"
+}
+
+func (w *c15SrWorld) close() {
+	for _, r := range w.readers {
+		func() {
+			defer func() { recover() }()
+			close(r.release)
+		}()
+	}
+	w.cancel()
+}
+
+func c15SrImpl(c lib.Case) []string {
+	w := newC15SrWorld()
+	defer w.close()
+	out := make([]string, 0, len(c.Ops))
+	for _, line := range c.Ops {
+		a := strings.Fields(line)
+		o := w.op(a)
+		out = append(out, o)
+		c15Count(a, o)
+		if strings.Contains(o, "timeout-") {
+			c15Timeouts.Add(1)
+			for len(out) < len(c.Ops) {
+				out = append(out, "skipped-after-timeout")
+			}
+			break
+		}
+	}
+	return out
+}
+
+func c15SrHeader() string { return "M C15 1 5 0 3 S" }
+
+func c15GenRunner(r *lib.Rng) lib.Case {
+	var ops []string
+	id, pend, queued, free := 0, 0, false, 0
+	ops = append(ops, "r.deploy")
+	free = 1
+	for n := r.Range(4, 14); n > 0; n-- {
+		switch r.Intn(6) {
+		case 0:
+			if free > 0 {
+				continue // several live loops of one runner race for everything (D39): not a deterministic lockstep
+			}
+			ops = append(ops, "r.deploy")
+			free++
+			if queued {
+				queued = false
+				if pend != id {
+					free--
+				}
+			}
+		case 1:
+			if free > 0 && r.Chance(1, 2) {
+				ops = append(ops, "r.hold")
+				free--
+			}
+		default:
+			// the job starts its next checkpoint (sometimes it has already abandoned it when the request arrives)
+			id++
+			if r.Chance(4, 5) {
+				pend = id
+				ops = append(ops, fmt.Sprintf("r.pend %d", pend))
+			}
+			if !queued {
+				ops = append(ops, fmt.Sprintf("r.start %d", id))
+				if free == 0 {
+					queued = true
+				} else if pend != id {
+					free--
+				}
+			}
+			if queued && r.Chance(1, 2) { // the job gives the checkpoint up and moves on
+				id++
+				pend = id
+				ops = append(ops, fmt.Sprintf("r.pend %d", pend))
+			}
+		}
+	}
+	return lib.Case{Header: c15SrHeader(), Ops: ops, Tags: []string{"runner-process"}}
+}
+
+func c15SrFixed() []lib.Case {
+	return []lib.Case{
+		// D48: the request for checkpoint 1 is queued behind a slow read; the job abandons it and redeploys the runner;
+		// the new loop acknowledges 1, is refused and ends; the request for checkpoint 2 is never taken up
+		{Header: c15SrHeader(), Tags: []string{"D48"}, Ops: []string{"r.deploy", "r.hold", "r.pend 1", "r.start 1", "r.pend 2", "r.deploy", "r.start 2", "r.start 3"}},
+		// the same runner without a queued request at the redeploy keeps acknowledging
+		{Header: c15SrHeader(), Tags: []string{"runner-process"}, Ops: []string{"r.deploy", "r.pend 1", "r.start 1", "r.hold", "r.deploy", "r.pend 2", "r.start 2", "r.hold", "r.start 3", "r.hold", "r.pend 3"}},
 	}
 }
